@@ -776,6 +776,7 @@ inductive Delta where
   | flags (v : Bytes)
   | pfx (v : Bytes)
   | sfx (v : Bytes)
+  deriving DecidableEq
 
 def Delta.apply : Delta → PState → PState
   | .skip, st => st
